@@ -156,6 +156,9 @@ func (u HTTPUpgrader) Upgrade(r *http.Request, w http.ResponseWriter) (conn net.
 	// same way as in Upgrader.
 	conn, rw, err = hijack(w)
 	if err != nil {
+		for k, v := range u.Header {
+			w.Header()[k] = v
+		}
 		httpError(w, err.Error(), http.StatusInternalServerError)
 		return conn, rw, hs, err
 	}
